@@ -246,7 +246,7 @@ func run(t interface{ Fatalf(string, ...any) }, c *Case) {
 func drawCase(t *rapid.T, o gen.DataOpts, nexpr int) *Case {
 	ds := gen.Dataset(t, o)
 	d := model.NewData(ds.Rows())
-	pool := gen.NewLeafPool(d)
+	pool := gen.NewLeafPool(d).AllowEmptyName()
 	c := &Case{Data: *ds, Probes: true}
 	k := rapid.IntRange(1, nexpr).Draw(t, "nexpr")
 	for i := 0; i < k; i++ {
